@@ -84,8 +84,31 @@ def showRound (od : OD) (dcf : Bool) (nid0 : Option Int) : String :=
   | none => "ok X=1 O=(" ++ showOD od ++ ") export-err"
   | some (d, r) => "ok X=1 O=(" ++ showOD od ++ ") D=" ++ encDoc d ++ " R=(" ++ showResult r ++ ")"
 
+def showStep (od : OD) (r : Option (Doc × Option OD)) : String :=
+  match r with
+  | none => "O=(" ++ showOD od ++ ") export-err"
+  | some (d, r) => "O=(" ++ showOD od ++ ") D=" ++ encDoc d ++ " R=(" ++ showResult r ++ ")"
+
+/-- the steps of a `hist` history: five tokens each (`<eds|dcf> <f|s|o> <file stem> <node id|none> <dictionary>`);
+    the file of a step is `<stem>.<eds|dcf>` -/
+def parseSteps : List String → Option (List RoundStep)
+  | [] => some []
+  | dt :: dest :: stem :: nid :: enc :: rest =>
+    match hexToStr stem, parseOptInt nid, parseOD enc, parseSteps rest with
+    | some stem, some nid, some od, some r =>
+      if (dt = "eds" ∨ dt = "dcf") ∧ (dest = "f" ∨ dest = "s" ∨ dest = "o") then
+        -- the node id in force for the original dictionary is in force for the re-import
+        let nid := match nid with | some n => some n | none => od.nodeId
+        some ({ od := od, dcf := dt = "dcf", nodeId := nid,
+                dest := if dest = "f" then .file (stem ++ '.' :: dt.toList) else .stream } :: r)
+      else none
+    | _, _, _, _ => none
+  | _ => none
+
 /-- ops:
   `rt <eds|dcf> <dest> <node id for the re-import|none> <dictionary built by API calls>`
+  `hist <k> {<eds|dcf> <f|s|o> <file stem> <node id|none> <dictionary>}*k`   several rounds in one process;
+                                                              `f` rounds write and re-read `<stem>.<eds|dcf>'
   `rti <eds|dcf> <dest> <node id|none> <file name> <doc> …`   import first, then round trip
   `rev <type> <value>`                                        `_revert_variable` + `_convert_variable` -/
 def step (args : List String) : String :=
@@ -103,6 +126,14 @@ def step (args : List String) : String :=
         | none => "import-err"
       else "bad-op"
     | _, _, _ => "bad-op"
+  | "hist" :: k :: rest =>
+    match k.toNat?, parseSteps rest with
+    | some k, some steps =>
+      if k = steps.length ∧ 0 < k then
+        "ok " ++ " # ".intercalate
+          ((List.zip steps (roundHistory [] steps)).map fun p => showStep p.1.od p.2)
+      else "bad-op"
+    | _, _ => "bad-op"
   | ["rev", t, v] =>
     match t.toInt?, parseValue v with
     | some t, some (some v) =>
